@@ -519,6 +519,12 @@ XMLFormatter::handleUnEscapedChars(const XMLCh *                  srcPtr,
          fTarget->writeChars(fTmpBuf, outBytes, this);
       }
 
+      //  A transcoder that can neither consume nor produce anything (e.g. the
+      //  text ends in an unpaired leading surrogate, which it leaves "for the
+      //  next block") would keep us here forever: there is no next block.
+      if (!charsEaten)
+         ThrowXMLwithMemMgr(TranscodingException, XMLExcepts::Trans_BadSrcSeq, fMemoryManager);
+
       srcPtr += charsEaten;
       count  -= charsEaten;
    }
